@@ -47,19 +47,26 @@ pub enum HistOp {
     },
 }
 
-/// Perform the operation through the real code; its result is irrelevant,
-/// only a panic is reported.
-pub fn perform(op: &HistOp) -> Result<(), String> {
+/// Perform the operation through the real code; its result is irrelevant to
+/// the verdict (only a panic is reported) but a digest of it is returned so
+/// that the determinism witness covers history operations too.
+pub fn perform(op: &HistOp) -> Result<u64, String> {
     match op {
         HistOp::Fmt { hi, lo, tr, plus, prec, fail_at_chunk } => {
             let x = raw_twofloat(*hi, *lo);
             let plan = SinkPlan { fail_at_chunk: *fail_at_chunk, capacity: None, sticky: true };
             let mut sink = SimSink::new(&plan);
-            guarded(|| fmtleg::render_tf(&mut sink, &x, *tr, *plus, *prec)).map(|_| ())
+            let r = guarded(|| fmtleg::render_tf(&mut sink, &x, *tr, *plus, *prec))?;
+            let mut h = sink.log;
+            h.byte(r.is_ok() as u8);
+            Ok(h.finish())
         }
         HistOp::Ser { hi, lo, fail_at } => {
             let c = SerCase { hi: *hi, lo: *lo, fault: fail_at.map(|at| CallFault { at, sticky: false }), human_readable: true };
-            serleg::run_serializer(&c).map(|_| ())
+            let (r, run) = serleg::run_serializer(&c)?;
+            let mut h = run.log;
+            h.byte(r.is_ok() as u8);
+            Ok(h.finish())
         }
         HistOp::De { hi, lo, mode, lo_first, fail_at } => {
             let c = DeCase {
@@ -77,7 +84,8 @@ pub fn perform(op: &HistOp) -> Result<(), String> {
             };
             let es = deleg::derive_stream(&c);
             let d = Delivery { fault: fail_at.map(|at| CallFault { at, sticky: false }), ..Delivery::clean(*mode) };
-            deleg::run_twofloat(&es, &d).map(|_| ())
+            let out = deleg::run_twofloat(&es, &d)?;
+            Ok(out.log ^ (out.result.is_ok() as u64))
         }
     }
 }
